@@ -107,6 +107,34 @@ def walk(b, max_paths=5000, orders='all', rnd=None, stop_infeasible=True):
                 stack.append((path + [(b.name(cn), b.name(o))], g2))
 
 
+def descend_infeasible(b, g, rnd, max_steps=12):
+    """From a graph reported infeasible, keep taking the next selection choice with a random option (as the fast
+    encoder does while looking for a neighbouring vector).  Returns ('became_feasible', path) if some descendant
+    reports feasible again, ('exception', path, exc) for an exception other than NoOptionError, else ('stayed', n)."""
+    import adsg_core.graph.adsg_nodes as an
+    from adsg_core.graph.choices import NoOptionError
+    path = []
+    for step in range(max_steps):
+        nxt = [n for n in g.get_ordered_next_choice_nodes() if isinstance(n, an.SelectionChoiceNode)]
+        if not nxt:
+            break
+        cn = nxt[0]
+        try:
+            opts = g.get_option_nodes(cn)
+            if not opts:
+                break
+            o = opts[rnd.randrange(len(opts))]
+            g = g.get_for_apply_selection_choice(cn, o)
+        except NoOptionError:
+            break
+        except Exception as e:  # noqa
+            return ('exception', path + [(b.name(cn), '?')], e)
+        path.append((b.name(cn), b.name(o)))
+        if g.feasible:
+            return ('became_feasible', path, g)
+    return ('stayed', len(path))
+
+
 def finish_connections(g, b, max_sets=200):
     """resolve the connection choices of a selection-final graph in every offered way;
     yields final graphs (or (None, exc))"""
